@@ -46,8 +46,10 @@ Inductive case :=
 | CVlq (n : Z) (out : str)                                   (* out = base64_vlq(n) *)
 | CVlqRange (lo : Z) (cnt : N) (digest : N)                  (* digest of base64_vlq(lo), …, base64_vlq(lo+cnt-1) *)
 | CMap (es : list entry) (out : option str)                  (* MappingWriter: add_entry for each, into_buffer; None = panic *)
-| CWriter (fmap : option (list N)) (ops : list wop) (out : option (str * str * list str))
-     (* SourceWriter::new, set_file_index_mapper, the ops, into_buffers = (buffer, source_map, names) *)
+| CWriter (tol : bool) (fmap : option (list N)) (ops : list wop) (out : option (str * str * list str))
+     (* SourceWriter::new, set_file_index_mapper, the ops, into_buffers = (buffer, source_map, names);
+        tol = lenient twin of a case that uses a file index mapped to usize::MAX: [holds] accepts source -1 for
+        exactly those segments (everything else is still required) *)
 | CJson (file : str) (srcs : list str) (passthru : bool) (out : option (str * list str))
      (* print_source_map_json(file, srcs, names, mappings): ("file", "sources") of the JSON written; passthru =
         version is 3, sourceRoot "", names and mappings are the arguments *)
@@ -85,7 +87,7 @@ Definition agree (c : case) : bool :=
   | CVlq n out => option_eqb str_eqb (vlq_encode n) (Some out)
   | CVlqRange lo cnt d => option_eqb N.eqb (range_digest lo cnt) (Some d)
   | CMap es out => option_eqb str_eqb (option_map mbuf (add_entries m0 es)) out
-  | CWriter fmap ops out => option_eqb triple_eqb (option_map sw_buffers (sw_run fmap ops)) out
+  | CWriter _ fmap ops out => option_eqb triple_eqb (option_map sw_buffers (sw_run fmap ops)) out
   | CJson file srcs passthru out =>
       passthru &&
       option_eqb (fun a b => str_eqb (fst a) (fst b) && list_eqb str_eqb (snd a) (snd b))
@@ -138,13 +140,14 @@ Fixpoint expect (fmap : option (list N)) (ops : list wop) : option (list xseg) :
   | _ :: r => expect fmap r
   end.
 
-Fixpoint match_segs (lines names : list str) (gs : list seg) (xs : list xseg) : bool :=
+Fixpoint match_segs (tol : bool) (lines names : list str) (gs : list seg) (xs : list xseg) : bool :=
   match gs, xs with
   | [], [] => true
   | g :: gr, x :: xr =>
       match g_orig g with
       | Some (sr, ol, oc, nm) =>
-          (sr =? Z.of_N (x_src x))%Z && (ol =? Z.of_N (x_ol x))%Z && (oc =? Z.of_N (x_oc x))%Z &&
+          ((sr =? Z.of_N (x_src x))%Z || (tol && (x_src x =? USIZE_MAX) && (sr =? -1)%Z)) &&
+          (ol =? Z.of_N (x_ol x))%Z && (oc =? Z.of_N (x_oc x))%Z &&
           match nm, x_name x with
           | None, None => true
           | Some k, Some n =>
@@ -153,7 +156,7 @@ Fixpoint match_segs (lines names : list str) (gs : list seg) (xs : list xseg) : 
           end &&
           match x_text x with Some w => text_at lines g w | None => true end
       | None => false
-      end && match_segs lines names gr xr
+      end && match_segs tol lines names gr xr
   | _, _ => false
   end.
 
@@ -309,7 +312,7 @@ Definition holds (c : case) : bool :=
           then option_eqb (list_eqb seg_eqb) (decode_mappings o) (Some (map seg_of_entry_spec es))
           else true
       end
-  | CWriter fmap ops out =>
+  | CWriter tol fmap ops out =>
       match out with
       | None => true
       | Some (buf, mp, names) =>
@@ -318,8 +321,9 @@ Definition holds (c : case) : bool :=
             | Some gs, Some xs =>
                 let lines := lines_of buf in
                 segs_sorted gs && forallb (seg_in_text lines) gs &&
-                forallb (seg_refs_ok (nsources_of fmap) (N.of_nat (length names))) gs &&
-                match_segs lines names gs xs
+                forallb (fun g => (tol && match g_orig g with Some (sr, _, _, _) => (sr =? -1)%Z | None => false end) ||
+                                  seg_refs_ok (nsources_of fmap) (N.of_nat (length names)) g) gs &&
+                match_segs tol lines names gs xs
             | None, _ => false
             | Some _, None => true
             end
